@@ -1,7 +1,7 @@
 """C15 - relative links written by iwe resolve back to the note they were written for (render-directory rule)."""
 from vlib import factbase as fb
 from vlib import q
-from .common import ctx, loc
+from .common import pname, ctx, loc
 from . import c05
 
 
@@ -118,10 +118,10 @@ def rule_r1(facts, rep, rid="C15-R1"):
     okg = False
     for r in tm:
         for y in fb.walk(r["args"][0]):
-            if y.get("k") == "mcall" and (fb.callee(y) or "").endswith("Key::parent") and ("param", "key") in cg_.vprov(y["recv"]):
+            if y.get("k") == "mcall" and (fb.callee(y) or "").endswith("Key::parent") and ("param", pname(g, 1)) in cg_.vprov(y["recv"]):
                 okg = True
     coll = [x for x in fb.calls_in(g.body) if (fb.callee(x) or "").endswith("GraphContext::collect")]
-    same = coll and ("param", "key") in cg_.vprov(coll[0]["args"][0])
+    same = coll and ("param", pname(g, 1)) in cg_.vprov(coll[0]["args"][0])
     if okg and same:
         rep.ok(rid, g.def_ + "|exports-relative-to-own-directory", "collect(key) rendered with key.parent()", g.loc)
     else:
